@@ -1,6 +1,10 @@
 package bug
 
-import "github.com/MichaelMure/git-bug/entity"
+import (
+	"github.com/MichaelMure/git-bug/entities/identity"
+	"github.com/MichaelMure/git-bug/entity"
+	"github.com/MichaelMure/git-bug/entity/dag"
+)
 
 // VHComment builds a comment with a given combined id (harness helper, overlay only).
 func VHComment(id entity.CombinedId, target entity.Id, msg string) Comment {
@@ -11,3 +15,19 @@ func VHComment(id entity.CombinedId, target entity.Id, msg string) Comment {
 func VHSnapshot(id entity.Id, comments []Comment) *Snapshot {
 	return &Snapshot{id: id, Comments: comments}
 }
+
+// VHCreateOp / VHAddCommentOp / VHSetTitleOp build operations with preset ids (the JSON
+// hashing of operations is cut by M-PACK).
+func VHCreateOp(author identity.Interface, id entity.Id, title, message string) *CreateOperation {
+	return &CreateOperation{OpBase: dag.VHNewOpBase(CreateOp, author, 1, id), Title: title, Message: message}
+}
+
+func VHAddCommentOp(author identity.Interface, id entity.Id, message string) *AddCommentOperation {
+	return &AddCommentOperation{OpBase: dag.VHNewOpBase(AddCommentOp, author, 2, id), Message: message}
+}
+
+func VHSetTitleOp(author identity.Interface, id entity.Id, title, was string) *SetTitleOperation {
+	return &SetTitleOperation{OpBase: dag.VHNewOpBase(SetTitleOp, author, 3, id), Title: title, Was: was}
+}
+
+const VHFormatVersion = formatVersion
